@@ -154,3 +154,36 @@ def run_part(ctx):
             note="every catalogued op x every subset of requires_grad flags x grad mode on/off; %d wrappers summarised" % len(summaries))
     ctx.sample({"wrapper_summary": {k: summaries[0][k] for k in ("module", "name", "kids_required", "accs", "req_any_children", "attach_ok")}} if summaries else {})
     return summaries
+
+
+def replay(ctx, data):
+    """Re-run a stored wrapper-contract witness on the implementation: 1 = the contract is still violated, 0 = holds."""
+    import random
+    from lib import impl, opcatalog
+    np = impl.np
+    inp = data.get("input", {})
+    if "op" not in inp:
+        return None
+    ops = {o.name: o for o in opcatalog.catalog(impl)}
+    op = ops.get(inp["op"])
+    if op is None:
+        print("unknown catalogue op", inp["op"]); return 1
+    flags = tuple(inp.get("requires_grad_flags", inp.get("flags", [])))
+    gm = bool(inp.get("grad_mode", True))
+    dtype = getattr(np, str(inp.get("dtype", "float64")))
+    try:
+        obs, ts, outs = observe(impl, op, flags, gm, dtype, random.Random(ctx.seed))
+    except Exception as ex:
+        print("raised", repr(ex)); return 1
+    want_req = gm and any(flags)
+    bad = obs["req"] != want_req or obs["has_fn"] != obs["req"] or (not obs["req"] and obs["n_children"] != 0)
+    if obs["req"]:
+        k = 0
+        for i, spec in enumerate(op.operands):
+            f = flags[k] if spec[2] else False
+            if spec[2]:
+                k += 1
+            if obs["written"][i] != f or (f and obs["accumulates"][i] is False):
+                bad = True
+    print("observed", obs)
+    return 1 if bad else 0
